@@ -42,13 +42,15 @@ class Ctx:
         self.docs = docs  # Inputs for metadata documents
 
     def cid(self, name):
+        if name.endswith("^"):
+            return self.cid(name[:-1]).upper()  # the same digest spelled in upper case: a different cid string
         if name == "N":
             return NEVER_CID[self.algo]
         return hashlib.new(self.algo, self.inputs.data[name]).hexdigest()
 
     def object_metadata(self, name):
         from hashstore.filehashstore import ObjectMetadata
-        d = self.inputs.data[name]
+        d = self.inputs.data[name.rstrip("^")]
         return ObjectMetadata("HashStoreNoPid", self.cid(name), len(d), digests(d, DEFAULT_ALGOS))
 
     def validation(self, name, val):
@@ -122,7 +124,7 @@ def _run(store, op, ctx):
         return store.delete_object(op[1])
     if k == "dii":
         _, c, kind = op
-        d = ctx.inputs.data[c]
+        d = ctx.inputs.data[c.rstrip("^")]
         if kind == "ok":
             kind = "ok:sha256+size"
         elif kind == "badboth":
@@ -131,7 +133,7 @@ def _run(store, op, ctx):
             kind = "badck:sha256+size"
         elif kind == "badsize":
             kind = "ok:sha256+badsize"
-        kw = ctx.validation(c, kind)
+        kw = ctx.validation(c.rstrip("^"), kind)
         if "checksum" not in kw:
             kw["checksum"] = hashlib.sha256(d).hexdigest()
             kw["checksum_algorithm"] = "sha256"
